@@ -695,9 +695,18 @@ func ruleForwardSetters(r *Run, rule string) {
 		}
 		// the field assigned from the parameter
 		var field types.Object
+		leavesBefore := false // a return before the store: the store is conditional
 		for _, st := range fd.Body.List {
 			as, ok := st.(*ast.AssignStmt)
 			if !ok || len(as.Lhs) != 1 || len(as.Rhs) != 1 {
+				if field == nil {
+					ast.Inspect(st, func(n ast.Node) bool {
+						if _, ok := n.(*ast.ReturnStmt); ok {
+							leavesBefore = true
+						}
+						return true
+					})
+				}
 				continue
 			}
 			rid, ok := ast.Unparen(as.Rhs[0]).(*ast.Ident)
@@ -738,7 +747,7 @@ func ruleForwardSetters(r *Run, rule string) {
 			})
 		}
 		// an instruction that reads no register has nothing to receive
-		good := nReads == 0 || (ptr && field != nil && len(readsVia) == 1 && readsVia[field])
-		r.check(good, rule, key, fd.Pos(), "Forward stores its argument in the instruction (pointer receiver: %v; assigned field: %v) and that field is the one every register read of the instruction consults (%d reads)", ptr, field != nil, nReads)
+		good := nReads == 0 || (ptr && field != nil && !leavesBefore && len(readsVia) == 1 && readsVia[field])
+		r.check(good, rule, key, fd.Pos(), "Forward stores its argument in the instruction UNCONDITIONALLY (pointer receiver: %v; assigned field: %v; a return before the store: %v) and that field is the one every register read of the instruction consults (%d reads)", ptr, field != nil, leavesBefore, nReads)
 	}
 }
